@@ -241,7 +241,7 @@ def run(ctx):
         for (kind, k, n, shape, how), q, r in zip(meta, reqs, drv.batch(reqs)):
             assert r["ok"] and r["decoOk"], q
             s_sp = r["s"]
-            if r["carries"] is not r["neg"]:  # the clause of the property on the text IS the flag the decoration carries
+            if r["carries"] is not r["neg"]:  # the clause of the property on the text IS the flag the decoration carries (spaced_flag)
                 ctx.broken.append("spec:Spaced.neg ≠ carriesNeg")
                 ctx.notes.append({"spec-flag-disagreement": s_sp, "neg": r["neg"], "carries": r["carries"]})
             if stated_negation(s_sp) is not None and stated_negation(s_sp) is not r["carries"]:
@@ -387,6 +387,11 @@ def run(ctx):
         "strings over the model's white space, `!` and the letters of `not` / `is` in either case, unbounded: any white space of any "
         "length next to each word or marker, any number of words — resolves to its key and is negated exactly when the stripped "
         "lower-cased text starts with `!`, carries `not`+white space or white space+`not` (Spec.carriesNeg))",
+        "C16_formula_spaced_render / C16_abbrev_spaced_render (every admissible Spaced decoration — outer white space, optional `!` + any "
+        "white space, any number of prefix words each followed by an arbitrary non-empty white-space string, suffix words each preceded "
+        "by one — around every formula / abbreviated spelling: the key, and the flag Spaced.neg the decoration carries by construction: "
+        "`!`, a prefix `not<ws>` or a suffix `<ws>not`); C16_formula_spaced_not_prefix / _not_suffix / _is_prefix / _is_suffix (the "
+        "single-space theorems with ANY non-empty white-space string next to the word)",
         "C16_names_spaced / C16_names_spaced_bang (19 names, every case: any white space after the literal space of `not ` and after `!`); "
         "C16_names_spaced_limits (kernel-checked witnesses of what the code rejects around names: `not\\tafter`, `after\\tnot`, "
         "`is  after`, `after  is` are ValueErrors, while the same decorations are accepted around `x<y`)",
@@ -398,8 +403,7 @@ def run(ctx):
         "decorated NAME spellings with extra white space BEFORE a trailing ` not` (e.g. `after \\t not`: accepted by the code, "
         "differential run only), and the spaced NAME spellings the code rejects (any white space other than the literal space next to "
         "`not`, more than the single space next to `is`: ValueError in code and model alike, witnesses in C16_names_spaced_limits — "
-        "finding B3, reported, not a violation of a theorem); the equality Spaced.neg = carriesNeg on the rendered shapes is checked "
-        "at run time on every rendered case (the theorems state the flag as carriesNeg, the property's own clause)",
+        "finding B3, reported, not a violation of a theorem)",
         "Unicode beyond the model alphabet (implementation-only stream: no exception other than ValueError)",
     ]
     ctx.assumptions += ["model alphabet: ASCII 0x09-0x0D, 0x20-0x7E, '≤', '…'"]
